@@ -201,6 +201,7 @@ def _ctx_err(eng, fr, st, name, args, rtypes, ins):
 @model("time.After")
 def _time_after(eng, fr, st, name, args, rtypes, ins):
     ch = ChanV(rtypes[0], z3.Const(fresh_name("timer"), Ref), False, ready=True)
+    eng.promise(st, ch)      # a timer channel delivers without further input
     return [(st, ch)]
 
 
